@@ -374,7 +374,8 @@ pub fn e2_spec(id: &str, tier: &str) -> Option<crate::e2::E2Spec> {
     use crate::e2::{E2Spec, Oracle, Scen};
     use ql::ex::{Kind, Op};
     let quick = tier == "quick";
-    let cap = if quick { 40 } else { 1200 };
+    // seconds per scenario per worker; the total budget per worker is 5 x this
+    let cap = if quick { 40 } else { 300 };
     let q = |n: u8| Op::Q(n);
     let dag_progs = || {
         vec![
